@@ -58,6 +58,12 @@ def main (args : List String) : IO UInt32 := do
     let lines ← IO.FS.lines path
     runHostFile lines stdout
     return 0
+  | ["crash", path, logPath, tier, "focus-header"] =>
+    let lines ← IO.FS.lines path
+    let log ← IO.FS.lines logPath
+    let dir := (System.FilePath.parent path).map (·.toString) |>.getD "."
+    runCrash dir lines log (tier == "thorough") stdout (focusHdr := true)
+    return 0
   | ["crash", path, logPath, tier] =>
     let lines ← IO.FS.lines path
     let log ← IO.FS.lines logPath
